@@ -105,6 +105,33 @@ def canon(v):
     return ["other", 9, type(v).__name__]
 
 
+def decl_of(p):
+    """what a parameter reports about its own declaration through public properties"""
+    P = mods()["P"]
+
+    def bound(x):
+        return ["int", x] if type(x) is int else (["float", fhex(x)] if type(x) is float else ["other", 9, type(x).__name__])
+    if isinstance(p, P.InputParameterMap):
+        c = None
+    elif isinstance(p, P.InputParameterInt):
+        c = ["int", bound(p.min_value), bound(p.max_value)]
+    elif isinstance(p, P.InputParameterFloat):
+        c = ["float", bound(p.min_value), bound(p.max_value)]
+    elif isinstance(p, P.InputParameterStr):
+        c = ["str"]
+    elif isinstance(p, P.InputParameterBool):
+        c = ["bool"]
+    elif isinstance(p, P.InputParameterQuantity):
+        c = ["qty", mods()["qcls"].index(p.type), bound(p.min_si), bound(p.max_si)]
+    elif isinstance(p, P.InputParameterUnit):
+        c = ["unit", mods()["qcls"].index(p.unittype), list(p.options)]
+    elif isinstance(p, P.InputParameterSelectionList):
+        c = ["sel", list(p.options)]
+    else:
+        c = ["unknown", type(p).__name__]
+    return [bool(p.read_only), fhex(p.display_priority), c]
+
+
 # ------------------------------------------------------------------ implementation driver + oracle
 def doc_valid(p, v) -> bool:
     """Validity of value v for parameter p, written from the class documentation
@@ -245,36 +272,54 @@ class Exec:
     # ---- construction
     def construct(self, spec, parent):
         P = mods()["P"]
-        kw = {"read_only": spec["ro"]}
+        fl = spec.get("flaws") or {}
+        kw = {"read_only": 1 if fl.get("ro") else spec["ro"]}
         if parent is not None:
             kw["parent"] = parent
-        prio = mk_value(spec["prio"])
+        prio = "high" if fl.get("prio") else mk_value(spec["prio"])
+        key = 5 if fl.get("key") else spec["key"]
+        name = {0: "n", 1: 7, 2: ""}[fl.get("name", 0)]
         k = spec["kind"]
         if k == "map":
             kw.pop("read_only")
-            return P.InputParameterMap(spec["key"], "n", prio, **kw)
+            return P.InputParameterMap(key, name, prio, **kw)
         d = mk_value(spec["default"])
+        if fl.get("fmt"):
+            kw["format_str"] = 5
         if k in ("int", "float"):
             if spec.get("mn") is not None:
                 kw["min_value"] = mk_value(spec["mn"])
             if spec.get("mx") is not None:
                 kw["max_value"] = mk_value(spec["mx"])
+            if fl.get("min"):
+                kw["min_value"] = "0"
+            if fl.get("max"):
+                kw["max_value"] = "9"
             cls = P.InputParameterInt if k == "int" else P.InputParameterFloat
-            return cls(spec["key"], "n", d, prio, **kw)
+            return cls(key, name, d, prio, **kw)
         if k == "str":
-            return P.InputParameterStr(spec["key"], "n", d, prio, **kw)
+            return P.InputParameterStr(key, name, d, prio, **kw)
         if k == "bool":
-            return P.InputParameterBool(spec["key"], "n", d, prio, **kw)
+            return P.InputParameterBool(key, name, d, prio, **kw)
         if k == "qty":
             if spec.get("mn") is not None:
                 kw["min_si"] = mk_value(spec["mn"])
             if spec.get("mx") is not None:
                 kw["max_si"] = mk_value(spec["mx"])
-            return P.InputParameterQuantity(spec["key"], "n", d, prio, **kw)
+            if fl.get("min"):
+                kw["min_si"] = "0"
+            if fl.get("max"):
+                kw["max_si"] = "9"
+            return P.InputParameterQuantity(key, name, d, prio, **kw)
         if k == "sel":
-            return P.InputParameterSelectionList(spec["key"], "n", list(spec["opts"]), d, prio, **kw)
+            opts = list(spec["opts"])
+            if fl.get("opts") == 1:
+                opts = tuple(opts)
+            elif fl.get("opts") == 2:
+                opts = opts + [3]
+            return P.InputParameterSelectionList(key, name, opts, d, prio, **kw)
         if k == "unit":
-            return P.InputParameterUnit(spec["key"], "n", mods()["qcls"][spec["qcls"]], d, prio, **kw)
+            return P.InputParameterUnit(key, name, mods()["qcls"][spec["qcls"]], d, prio, **kw)
         raise ValueError(k)
 
     # ---- reference tree
@@ -336,10 +381,11 @@ class Exec:
         obj = self.root if obj is None else obj
         yield node, obj
         if isinstance(obj, P.InputParameterMap):
-            kids = {k["key"]: k for k in node["kids"]}
-            for key, c in list(obj.value.items()):
-                if key in kids:
-                    yield from self.ref_walk(kids[key], c)
+            kids = {k["id"]: k for k in node["kids"]}           # paired by identity, not by key
+            for _key, c in list(obj.value.items()):
+                ident = self.ids.get(id(c))
+                if ident in kids:
+                    yield from self.ref_walk(kids[ident], c)
 
     # ---- one operation
     def _do(self, op):
@@ -358,6 +404,8 @@ class Exec:
             if isinstance(v, dict):
                 return ["keys", list(v.keys())]
             return ["value", canon(v)]
+        if t == "inspect":
+            return ["decl", decl_of(self.root.get(op[1]))]
         if t == "remove":
             return ["param", self.root.remove(op[1])]
         if t == "addc":
@@ -381,7 +429,7 @@ class Exec:
         P = mods()["P"]
         t = op[0]
         # facts the oracle needs from before the operation
-        pre_target = self.resolve(op[1]) if t in ("set", "mset", "remove", "get", "mget") else None
+        pre_target = self.resolve(op[1]) if t in ("set", "mset", "remove", "get", "mget", "inspect") else None
         pre_parent = None
         if t in ("addc", "addm"):
             pre_parent = self.root if op[1] is None else self.resolve(op[1])
@@ -571,9 +619,15 @@ def bound_num(b, default):
 
 def value_for(rng, p):
     """a value for parameter object p: mostly one the class should accept"""
-    P = mods()["P"]
-    if rng.random() < 0.3:
+    r = rng.random()
+    try:
+        return _value_for(rng, p) if r >= 0.3 else vany(rng)
+    except Exception:          # a half-built or otherwise broken object: anything will do
         return vany(rng)
+
+
+def _value_for(rng, p):
+    P = mods()["P"]
     if isinstance(p, P.InputParameterInt):
         lo, hi = p.min_value, p.max_value
         cands = [x for x in INTS if lo <= x <= hi]
@@ -605,7 +659,13 @@ def value_for(rng, p):
     return vany(rng)
 
 
-def gen_spec(rng, depth_ok, taken):
+FLAWS_FOR = {"map": ["key", "name", "prio"], "str": ["key", "name", "prio", "ro"], "bool": ["key", "name", "prio", "ro"],
+             "unit": ["key", "name", "prio", "ro"], "sel": ["key", "name", "prio", "ro", "opts"],
+             "int": ["key", "name", "prio", "ro", "min", "max", "fmt"], "float": ["key", "name", "prio", "ro", "min", "max", "fmt"],
+             "qty": ["key", "name", "prio", "ro", "min", "max", "fmt"]}
+
+
+def gen_spec(rng, depth_ok, taken, pflaw=0.05):
     kind = rng.choice(KINDS if depth_ok else KINDS[1:])
     if kind == "map" and rng.random() < 0.25:
         kind = rng.choice(KINDS[1:])
@@ -657,6 +717,11 @@ def gen_spec(rng, depth_ok, taken):
         spec["qcls"] = rng.randrange(3)
         units = list(mods()["qcls"][spec["qcls"]]._units.keys())
         spec["default"] = ["str", rng.choice(units)] if not bad else rng.choice([["str", rng.choice(STRS)], vany(rng)])
+    if rng.random() < pflaw:                       # a constructor argument of the wrong Python type
+        fl = {}
+        for name in rng.sample(FLAWS_FOR[kind], rng.choice([1, 1, 2])):
+            fl[name] = rng.choice([1, 2]) if name in ("name", "opts") else True
+        spec["flaws"] = fl
     return spec
 
 
@@ -696,7 +761,7 @@ def gen_and_run(rng, n_ops, malformed=False):
             par = ex.root if pp is None else ex.resolve(pp)
             taken = set(par.value.keys()) if isinstance(par, P.InputParameterMap) else set()
             depth_ok = (depth_of.get(pp, 1) if pp else 1) < 3
-            op = [variant, pp, gen_spec(rng, depth_ok, taken)]
+            op = [variant, pp, gen_spec(rng, depth_ok, taken, 0.15 if malformed else 0.04)]
         elif r < 0.66:
             t = "set" if rng.random() < 0.65 else "mset"
             if leafs and rng.random() > pbad:
@@ -707,7 +772,7 @@ def gen_and_run(rng, n_ops, malformed=False):
             else:
                 op = [t, bogus_path(rng, leafs, maps), vany(rng)]
         elif r < 0.91:
-            t = "get" if rng.random() < 0.55 else "mget"
+            t = rng.choice(["get", "get", "get", "mget", "mget", "inspect", "inspect"])
             allp = leafs + maps
             op = [t, rng.choice(allp)] if allp and rng.random() > pbad else [t, bogus_path(rng, leafs, maps)]
         else:
@@ -715,6 +780,8 @@ def gen_and_run(rng, n_ops, malformed=False):
             op = ["remove", rng.choice(allp)] if allp and rng.random() > pbad else ["remove", bogus_path(rng, leafs, maps)]
         out, d = ex.apply(op)
         obs.append((op, out, d))
+        if ex.bad is not None:
+            break              # a clause is violated already: the rest of the sequence adds nothing
     return ex, obs
 
 
@@ -832,7 +899,37 @@ class Emitter:
             kind = f"(SUnit {sp['qcls']}%N {self.name('u', C.clist(cstr(u) for u in units))})"
         d = "VNone" if k == "map" else self.val(arg_canon(sp["default"]))
         ro = "true" if k == "map" else C.cbool(sp["ro"])
-        return f"(mkSpec {self.s(sp['key'])} {cprio(sp['prio'])} {ro} {kind} {d})"
+        fl = sp.get("flaws")
+        if fl:
+            b = lambda n: C.cbool(bool(fl.get(n)))                       # noqa: E731
+            flaws = (f"(mkFlaws {b('key')} {fl.get('name', 0)}%N {b('prio')} {b('ro')} {b('min')} {b('max')} {b('fmt')} "
+                     f"{fl.get('opts', 0)}%N)")
+        else:
+            flaws = "no_flaws"
+        return f"(mkSpec {self.s(sp['key'])} {cprio(sp['prio'])} {ro} {kind} {d} {flaws})"
+
+    def constr(self, c):
+        if c is None:
+            return "None"
+
+        def b(x):
+            return f"(NI {C.cz(x[1])})" if x[0] == "int" else (f"(NF {cflt(x[1])})" if x[0] == "float" else "(NF FNaN)")
+        k = c[0]
+        if k == "int":
+            return f"(Some (CInt {b(c[1])} {b(c[2])}))"
+        if k == "float":
+            return f"(Some (CFloat {b(c[1])} {b(c[2])}))"
+        if k == "str":
+            return "(Some CStr)"
+        if k == "bool":
+            return "(Some CBool)"
+        if k == "qty":
+            return f"(Some (CQty {c[1]}%N {b(c[2])} {b(c[3])}))"
+        if k == "sel":
+            return f"(Some (CSel {C.clist(self.s(o) for o in c[1])}))"
+        if k == "unit":
+            return f"(Some (CUnit {c[1]}%N {self.name('u', C.clist(cstr(u) for u in c[2]))}))"
+        return "None"
 
     def op(self, op):
         t = op[0]
@@ -844,6 +941,8 @@ class Emitter:
             return f"OGet {self.s(op[1])}"
         if t == "mget":
             return f"OModelGet {self.s(op[1])}"
+        if t == "inspect":
+            return f"OInspect {self.s(op[1])}"
         if t == "remove":
             return f"ORemove {self.s(op[1])}"
         pp = "None" if op[1] is None else f"(Some {self.s(op[1])})"
@@ -858,6 +957,10 @@ class Emitter:
             return f"OParam {o[1]}" if o[1] >= 0 else "OParam 999999"
         if o[0] == "value":
             return f"OValue {self.val(o[1])}"
+        if o[0] == "decl":
+            ro, prio, c = o[1]
+            n, dd = float.fromhex(prio).as_integer_ratio()
+            return f"ODecl {C.cbool(ro)} {cq(n, dd)} {self.constr(c)}"
         return f"OMapKeys {C.clist(self.s(k) for k in o[1])}"
 
     def dump(self, d):
@@ -866,7 +969,7 @@ class Emitter:
         items = []
         for ek, ident, v, dv in d:
             vv = "None" if v is None else f"(Some {self.val(v)})"
-            items.append(f"({self.s(ek)}, {ident if ident >= 0 else 999999}, {vv}, {self.val(dv)})")
+            items.append(f"de {self.s(ek)} {ident if ident >= 0 else 999999} {vv} {self.val(dv)}")
         return f"(Some {C.clist(items)})"
 
 
@@ -881,20 +984,27 @@ def arg_canon(desc):
     return _arg_cache[k]
 
 
-def emit_cases(path: Path, cases):
+PRELUDE = ["From Coq Require Import ZArith QArith List String.", "From PV Require Import Params.Model.",
+           "Import ListNotations.", "Open Scope string_scope.", "Open Scope nat_scope.",
+           # fully typed helpers: Coq elaborates a big literal much faster when no pair types have to be inferred
+           "Definition de (k : string) (i : nat) (v : option pyval) (d : pyval) : dump_entry := (k, i, v, d).",
+           "Definition ob (o : op) (r : out) (d : option (list dump_entry)) : obs := (o, r, d)."]
+
+
+def emit_file(path: Path, cases, final: str):
     em = Emitter()
-    items = []
-    for obs in cases:
-        row = [f"({em.op(op)}, {em.out(out)}, {em.dump(d)})" for op, out, d in obs]
-        items.append(C.clist(row))
-    lines = ["From Coq Require Import ZArith QArith List String.", "From PV Require Import Params.Model.",
-             "Import ListNotations.", "Open Scope string_scope.", "Open Scope nat_scope."]
-    lines += em.defs
-    lines.append("Definition cases : list (list obs) := [")
-    lines.append(";\n".join(items))
-    lines.append("].")
-    lines.append("Eval vm_compute in (mismatches_from 0 (case_ok repaired) cases).")
+    body = []
+    for n, obs in enumerate(cases):
+        row = [f"ob ({em.op(op)}) ({em.out(out)}) {em.dump(d)}" for op, out, d in obs]
+        body.append(f"Definition c{n} : list obs := {C.clist(row)}.")
+    lines = list(PRELUDE) + em.defs + body
+    lines.append("Definition cases : list (list obs) := " + C.clist(f"c{n}" for n in range(len(cases))) + ".")
+    lines.append(final)
     path.write_text("\n".join(lines) + "\n", encoding="utf-8")
+
+
+def emit_cases(path: Path, cases):
+    emit_file(path, cases, "Eval vm_compute in (mismatches_from 0 (case_ok repaired) cases).")
 
 
 # ------------------------------------------------------------------ main
@@ -915,19 +1025,7 @@ def nontrivial(ex) -> bool:
 
 
 def emit_locate(path: Path, cases):
-    em = Emitter()
-    items = []
-    for obs in cases:
-        row = [f"({em.op(op)}, {em.out(out)}, {em.dump(d)})" for op, out, d in obs]
-        items.append(C.clist(row))
-    lines = ["From Coq Require Import ZArith QArith List String.", "From PV Require Import Params.Model.",
-             "Import ListNotations.", "Open Scope string_scope.", "Open Scope nat_scope."]
-    lines += em.defs
-    lines.append("Definition cases : list (list obs) := [")
-    lines.append(";\n".join(items))
-    lines.append("].")
-    lines.append("Eval vm_compute in (first_bad_ops repaired cases).")
-    path.write_text("\n".join(lines) + "\n", encoding="utf-8")
+    emit_file(path, cases, "Eval vm_compute in (first_bad_ops repaired cases).")
 
 
 def main(tier: str) -> int:
